@@ -7,14 +7,39 @@ use unic_langid_impl::LanguageIdentifier;
 #[cfg(feature = "serde")]
 mod imp {
     use super::*;
+    /// a writer that accepts `left` bytes and then fails: serialisation errors mid-way
+    struct FailWriter { left: usize }
+    impl std::io::Write for FailWriter {
+        fn write(&mut self, buf: &[u8]) -> std::io::Result<usize> {
+            if buf.len() > self.left { self.left = 0; return Err(std::io::Error::new(std::io::ErrorKind::Other, "full")); }
+            self.left -= buf.len();
+            Ok(buf.len())
+        }
+        fn flush(&mut self) -> std::io::Result<()> { Ok(()) }
+    }
     pub fn serde_ser(v: &[u8]) -> String {
         match LanguageIdentifier::from_bytes(v) {
             Ok(li) => {
+                // a FAILED serialisation (of this value and of an unrelated one, in containers too) must leave no
+                // trace: what is serialised afterwards on the same thread is still exactly the canonical string
+                let other: LanguageIdentifier = "zh-Hant-TW-fonipa".parse().unwrap();
+                for left in [0usize, 1, 3] {
+                    let _ = serde_json::to_writer(FailWriter { left }, &li);
+                    let _ = serde_json::to_writer(FailWriter { left }, &other);
+                    let _ = serde_json::to_writer(FailWriter { left: left + 2 }, &vec![other.clone(), li.clone()]);
+                }
                 let a = serde_json::to_string(&li);
                 let b = serde_json::to_value(&li);
                 match (a, b) {
                     (Ok(s), Ok(serde_json::Value::String(t))) => {
                         if s != format!("\"{}\"", t) { return format!("INCONSISTENT to_string {} vs to_value {}", s, t); }
+                        // containers and map keys carry the same string
+                        let in_vec = serde_json::to_string(&vec![li.clone(), li.clone()]).unwrap_or_default();
+                        if in_vec != format!("[{},{}]", s, s) { return format!("INCONSISTENT inside a Vec: {}", in_vec); }
+                        let in_opt = serde_json::to_string(&Some(li.clone())).unwrap_or_default();
+                        if in_opt != s { return format!("INCONSISTENT inside an Option: {}", in_opt); }
+                        let mut w: Vec<u8> = Vec::new();
+                        if serde_json::to_writer(&mut w, &li).is_err() || w != s.as_bytes() { return "INCONSISTENT to_writer vs to_string".into(); }
                         format!("OK {}", s)
                     }
                     (a, b) => format!("SER-ERR {:?} {:?}", a.is_ok(), b.is_ok()),
@@ -42,6 +67,12 @@ mod imp {
         let r4 = fmt_r(serde_json::from_slice::<LanguageIdentifier>(plain.as_bytes()));
         let r5 = fmt_r(serde_json::from_reader::<_, LanguageIdentifier>(std::io::Cursor::new(plain.as_bytes().to_vec())));
         if r1 != r2 || r1 != r3 || r1 != r4 || r1 != r5 { return format!("INCONSISTENT plain={} escaped={} value={} slice={} reader={}", r1, r2, r3, r4, r5); }
+        // inside containers: a Vec element, an Option, a struct-like map value, a map key
+        let r6 = fmt_r(serde_json::from_str::<Vec<LanguageIdentifier>>(&format!("[{}]", esc)).map(|mut v| v.pop().unwrap()));
+        let r7 = match serde_json::from_str::<Option<LanguageIdentifier>>(&plain) { Ok(Some(x)) => fmt_r(Ok(x)), Ok(None) => "NONE".into(), Err(_) => "ERR".into() };
+        let r8 = fmt_r(serde_json::from_str::<std::collections::BTreeMap<String, LanguageIdentifier>>(&format!("{{\"k\":{}}}", plain)).map(|mut m| m.remove("k").unwrap()));
+        let r9 = fmt_r(serde_json::from_str::<std::collections::BTreeMap<LanguageIdentifier, u8>>(&format!("{{{}:1}}", plain)).map(|m| m.into_iter().next().unwrap().0));
+        if r1 != r6 || r1 != r7 || r1 != r8 || r1 != r9 { return format!("INCONSISTENT plain={} vec={} option={} map-value={} map-key={}", r1, r6, r7, r8, r9); }
         r1
     }
     pub fn serde_roundtrip(v: &[u8]) -> String {
